@@ -58,44 +58,51 @@ theorem context_restores_and_flushes_once (w : World) (tracer : Nat) (body flush
     (traceCalls w tracer body flush).2 = body := by
   cases flush <;> simp_all [traceCalls, guarded]
 
-def SafeProbe (op : Val × Probe) : Prop := op.2 = .typeOf ∨ isExact op.1 = true
+/-- `type(obj)`, a walk of an *exact* builtin container — or the one operation that can reach user code: the hash of a class
+    object (typing's cache; user code only if the metaclass defines `__hash__`: open finding KF-C03-metaclass-hash) -/
+def SafeProbe (op : Val × Probe) : Prop :=
+  op.2 = .typeOf ∨ isExact op.1 = true ∨ (op.2 = .hashClass ∧ ∃ c, op.1 = .classObj c)
 
 mutual
 theorem probes_safe : ∀ v : Val, ∀ op ∈ probes v, SafeProbe op
   | .inst c, op, h => by simp [probes] at h; subst h; exact Or.inl rfl
   | .str s, op, h => by simp [probes] at h; subst h; exact Or.inl rfl
-  | .classObj c, op, h => by simp [probes] at h; subst h; exact Or.inl rfl
+  | .classObj c, op, h => by
+      simp only [probes, List.mem_cons, List.not_mem_nil, or_false] at h
+      rcases h with rfl | rfl
+      · exact Or.inl rfl
+      · exact Or.inr (Or.inr ⟨rfl, c, rfl⟩)
   | .func, op, h => by simp [probes] at h; subst h; exact Or.inl rfl
   | .genObj, op, h => by simp [probes] at h; subst h; exact Or.inl rfl
   | .list vs, op, h => by
       simp only [probes, List.mem_cons] at h
       rcases h with heq | heq | h
       · rw [heq]; exact Or.inl rfl
-      · rw [heq]; exact Or.inr rfl
+      · rw [heq]; exact Or.inr (Or.inl rfl)
       · exact probesL_safe vs op h
   | .set vs, op, h => by
       simp only [probes, List.mem_cons] at h
       rcases h with heq | heq | h
       · rw [heq]; exact Or.inl rfl
-      · rw [heq]; exact Or.inr rfl
+      · rw [heq]; exact Or.inr (Or.inl rfl)
       · exact probesL_safe vs op h
   | .tuple vs, op, h => by
       simp only [probes, List.mem_cons] at h
       rcases h with heq | heq | h
       · rw [heq]; exact Or.inl rfl
-      · rw [heq]; exact Or.inr rfl
+      · rw [heq]; exact Or.inr (Or.inl rfl)
       · exact probesL_safe vs op h
   | .dict kvs, op, h => by
       simp only [probes, List.mem_cons] at h
       rcases h with heq | heq | h
       · rw [heq]; exact Or.inl rfl
-      · rw [heq]; exact Or.inr rfl
+      · rw [heq]; exact Or.inr (Or.inl rfl)
       · exact probesKV_safe kvs op h
   | .ddict kvs, op, h => by
       simp only [probes, List.mem_cons] at h
       rcases h with heq | heq | h
       · rw [heq]; exact Or.inl rfl
-      · rw [heq]; exact Or.inr rfl
+      · rw [heq]; exact Or.inr (Or.inl rfl)
       · exact probesKV_safe kvs op h
 theorem probesL_safe : ∀ vs : List Val, ∀ op ∈ probesL vs, SafeProbe op
   | [], op, h => by simp [probesL] at h
@@ -114,12 +121,23 @@ theorem probesKV_safe : ∀ kvs : List (Val × Val), ∀ op ∈ probesKV kvs, Sa
       · exact probesKV_safe kvs op h
 end
 
-/-- type collection only ever (a) asks for the type of an object or (b) walks an *exact* builtin container:
-    no operation that could dispatch to user-defined code (attribute hooks, descriptors, `__class__`, container protocol
-    methods of subclasses, hashing, equality, truthiness, repr) is applied to any object, at any nesting depth.
-    (`.inst` stands for every non-container object, instances of container subclasses included.) -/
-theorem only_exact_containers_are_traversed (v : Val) : ∀ op ∈ probes v, op.2 = .typeOf ∨ isExact op.1 = true :=
+/-- type collection only ever (a) asks for the type of an object, (b) walks an *exact* builtin container or (c) hashes a class
+    object that is itself the value (`Type[cls]`): no other operation that could dispatch to user-defined code (attribute hooks,
+    descriptors, `__class__`, container protocol methods of subclasses, hashing of instances, equality, truthiness, repr) is
+    applied to any object, at any nesting depth.  (`.inst` stands for every non-container object, instances of container
+    subclasses included.)  (c) runs user code only for a class whose metaclass defines `__hash__` - the recorded open finding. -/
+theorem only_exact_containers_are_traversed (v : Val) :
+    ∀ op ∈ probes v, op.2 = .typeOf ∨ isExact op.1 = true ∨ (op.2 = .hashClass ∧ ∃ c, op.1 = .classObj c) :=
   probes_safe v
+
+/-- … so a value without class objects in it is never hashed, compared or otherwise dispatched on -/
+theorem no_class_objects_no_hashing (v : Val) (h : ∀ op ∈ probes v, ∀ c, op.1 ≠ .classObj c) :
+    ∀ op ∈ probes v, op.2 = .typeOf ∨ isExact op.1 = true := by
+  intro op hop
+  rcases probes_safe v op hop with h1 | h1 | ⟨_, c, hc⟩
+  · exact Or.inl h1
+  · exact Or.inr h1
+  · exact absurd hc (h op hop c)
 
 example : (probes (.list [.inst 40, .dict [(.inst 41, .str "x")]])).length = 7 := by decide
 
